@@ -119,6 +119,11 @@ def enumerate_cases(tier):
 def fixed_cases():
     yield {'ops': [['mkpp', {'width': 40}], ['set', {'max_seq_len': 2, 'depth': 1}], ['usepp', 0, ''], ['set', {'width': 5}], ['usepp', 1, ''], ['get']]}
     yield {'ops': [['print', 'PP.pformat', 0, {'width': 5}, '']]}       # D16
+    # a width below the ribbon in the defaults, a print without explicit settings, then the defaults read and a wider print
+    for entry in ('pformat', 'pprint_stream', 'cpprint_off', 'PP.pformat', 'pretty_repr'):
+        yield {'ops': [['set', {'width': 20}], ['print', entry, 1, {}, ''], ['get'], ['print', entry, 1, {'width': 100}, ''], ['get'],
+                       ['set', {'width': 79}], ['print', entry, 1, {}, ''], ['get']]}
+        yield {'ops': [['set', {'ribbon_width': 10}], ['print', entry, 0, {'width': 5}, ''], ['get'], ['print', 'pformat', 0, {}, '']]}
     yield {'ops': [['set', {'depth': 1, 'max_seq_len': 2}], ['print', 'pretty_repr', 1, {}, ''], ['set', {'depth': None}], ['get'],
                    ['print', 'cpprint_on', 1, {'indent': 2}, 'END']]}
 
